@@ -33,3 +33,103 @@ Qed.
 (* with an unbuffered channel a goroutine is left behind as soon as the main loop has stopped listening *)
 Example unbuffered_channel_leaks : hs_blocked (h_run 0 [HFinish true]) = 1.
 Proof. reflexivity. Qed.
+
+(* ---------------- one winner, every finish counted ----------------------- *)
+(* ghost: how many attempts win the compare-and-swap on resultSent (and therefore send) along a trace *)
+Definition h_wins_step (s : hstate) (x : hstep) : nat :=
+  match x with
+  | HFinish w => if w && negb (hs_sent s) then 1 else 0
+  | HRecv => 0
+  end.
+
+Fixpoint h_wins (s : hstate) (tr : list hstep) : nat :=
+  match tr with
+  | [] => 0
+  | x :: tr' => h_wins_step s x + h_wins (h_step s x) tr'
+  end.
+
+Definition is_finish (x : hstep) : bool := match x with HFinish _ => true | HRecv => false end.
+Definition wants (x : hstep) : bool := match x with HFinish w => w | HRecv => false end.
+
+Lemma sent_sticky s x : hs_sent s = true -> hs_sent (h_step s x) = true.
+Proof.
+  intros Hs. destruct x as [w|]; cbn [h_step].
+  - rewrite Hs, andb_false_r. cbn [hs_sent]. reflexivity.
+  - destruct (hs_chan s); [exact Hs|cbn [hs_sent]; exact Hs].
+Qed.
+
+Lemma wins_after_sent tr : forall s, hs_sent s = true -> h_wins s tr = 0.
+Proof.
+  induction tr as [|x tr IH]; intros s Hs; [reflexivity|]. cbn [h_wins].
+  rewrite (IH _ (sent_sticky s x Hs)). destruct x as [w|]; cbn [h_wins_step]; [|reflexivity].
+  rewrite Hs, andb_false_r. reflexivity.
+Qed.
+
+Lemma win_sets_sent s w : w && negb (hs_sent s) = true -> hs_sent (h_step s (HFinish w)) = true.
+Proof. intros E. cbn [h_step]. rewrite E. destruct (Nat.ltb _ _); reflexivity. Qed.
+
+Lemma lose_keeps_sent s w : w && negb (hs_sent s) = false -> hs_sent (h_step s (HFinish w)) = hs_sent s.
+Proof. intros E. cbn [h_step]. rewrite E. reflexivity. Qed.
+
+Lemma recv_keeps_sent s : hs_sent (h_step s HRecv) = hs_sent s.
+Proof. cbn [h_step]. destruct (hs_chan s); reflexivity. Qed.
+
+(* whatever the buffer size and the interleaving: the compare-and-swap is won exactly once if some finishing attempt
+   has a result to hand on (final or matching the cancel conditions), and never otherwise *)
+Theorem hedge_one_winner_from s tr :
+  hs_sent s = false -> h_wins s tr = (if existsb wants tr then 1 else 0).
+Proof.
+  revert s. induction tr as [|x tr IH]; intros s Hs; [reflexivity|]. cbn [h_wins existsb].
+  destruct x as [w|]; cbn [h_wins_step wants].
+  - rewrite Hs. cbn [negb]. rewrite andb_true_r. destruct w; cbn [orb].
+    + rewrite wins_after_sent; [reflexivity|]. apply win_sets_sent. rewrite Hs. reflexivity.
+    + rewrite IH; [reflexivity|]. rewrite lose_keeps_sent; [exact Hs|reflexivity].
+  - cbn [orb]. rewrite IH; [reflexivity|]. rewrite recv_keeps_sent. exact Hs.
+Qed.
+
+Theorem hedge_one_winner cap tr : h_wins (h_init cap) tr = (if existsb wants tr then 1 else 0).
+Proof. apply hedge_one_winner_from. reflexivity. Qed.
+
+Corollary hedge_at_most_one_winner cap tr : h_wins (h_init cap) tr <= 1.
+Proof. rewrite hedge_one_winner. destruct (existsb wants tr); lia. Qed.
+
+(* resultSent at the end says whether somebody won *)
+Theorem hedge_sent_iff_winner cap tr : hs_sent (h_run cap tr) = existsb wants tr.
+Proof.
+  unfold h_run. assert (H : forall s, hs_sent (fold_left h_step tr s) = hs_sent s || existsb wants tr).
+  { induction tr as [|x tr IH]; intros s; cbn [fold_left existsb]; [rewrite orb_false_r; reflexivity|].
+    rewrite IH. destruct x as [w|]; cbn [wants].
+    - destruct (w && negb (hs_sent s)) eqn:E.
+      + rewrite (win_sets_sent _ _ E). apply andb_prop in E. destruct E as [-> _]. cbn [orb]. rewrite orb_true_r. reflexivity.
+      + rewrite (lose_keeps_sent _ _ E). destruct (hs_sent s) eqn:Es; [reflexivity|]. rewrite andb_true_r in E. rewrite E. reflexivity.
+    - rewrite recv_keeps_sent. reflexivity. }
+  rewrite H. reflexivity.
+Qed.
+
+(* resultCount counts every finished attempt exactly once, in every interleaving and for every buffer size *)
+Theorem hedge_count_exact cap tr : hs_count (h_run cap tr) = List.length (filter is_finish tr).
+Proof.
+  unfold h_run. assert (H : forall s, hs_count (fold_left h_step tr s) = hs_count s + List.length (filter is_finish tr)).
+  { induction tr as [|x tr IH]; intros s; cbn [fold_left filter List.length]; [lia|]. rewrite IH.
+    destruct x as [w|]; cbn [is_finish filter List.length h_step].
+    - destruct (w && negb (hs_sent s)); [destruct (Nat.ltb _ _)|]; cbn [hs_count]; lia.
+    - destruct (hs_chan s); cbn [hs_count]; lia. }
+  rewrite H. reflexivity.
+Qed.
+
+(* with a buffer of at least one slot the channel never holds more than the winner's result, and holds nothing
+   before somebody has won *)
+Theorem hedge_channel_bound cap tr : 1 <= cap ->
+  hs_chan (h_run cap tr) <= 1 /\ (hs_sent (h_run cap tr) = false -> hs_chan (h_run cap tr) = 0).
+Proof.
+  intros Hc. unfold h_run.
+  assert (H : forall s, hs_cap s = cap -> hinv s -> hinv (fold_left h_step tr s)).
+  { induction tr as [|x tr IH]; intros s Hcap Hi; [exact Hi|]. cbn [fold_left].
+    destruct (hinv_step s x ltac:(lia) Hi) as [Hi' Hc']. apply IH; [lia|exact Hi']. }
+  destruct (H (h_init cap) eq_refl) as (_ & Hs & Hl); [repeat split; auto|]. split; assumption.
+Qed.
+
+Example one_winner_nonvacuous :
+  h_wins (h_init 1) [HFinish false; HFinish true; HRecv; HFinish true] = 1 /\
+  hs_count (h_run 1 [HFinish false; HFinish true; HRecv; HFinish true]) = 3.
+Proof. split; reflexivity. Qed.
